@@ -118,12 +118,12 @@ func (k *kwCore[F]) altColumn(x *engine.X, key string, r []*big.Int, mask uint64
 
 // kwFlavour abstracts KW vs Feldman (same share and dealer-function types).
 type kwFlavour[F algebra.PrimeFieldElement[F]] struct {
-	name        string
-	deal        func(secret *kw.Secret[F], rd io.Reader) (func(sharing.ID) (*kw.Share[F], bool), *kw.DealerFunc[F], error)
-	dealRandom  func(rd io.Reader) (func(sharing.ID) (*kw.Share[F], bool), *kw.Secret[F], error)
-	reconstruct func(sh ...*kw.Share[F]) (*kw.Secret[F], error)
-	can         func(ids ...sharing.ID) bool
-	toAdditive  func(sh *kw.Share[F], q *unanimity.Unanimity) (*additive.Share[F], error)
+	name            string
+	deal            func(secret *kw.Secret[F], rd io.Reader) (func(sharing.ID) (*kw.Share[F], bool), *kw.DealerFunc[F], error)
+	dealRandom      func(rd io.Reader) (func(sharing.ID) (*kw.Share[F], bool), *kw.Secret[F], error)
+	reconstruct     func(sh ...*kw.Share[F]) (*kw.Secret[F], error)
+	can             func(ids ...sharing.ID) bool
+	toAdditive      func(sh *kw.Share[F], q *unanimity.Unanimity) (*additive.Share[F], error)
 	realDealWitness bool // push the witness through Deal as well (cheap for plain KW)
 }
 
@@ -1042,6 +1042,15 @@ func huge(e catalog.Entry) bool {
 	return (e.P.Kind == policy.CNF && e.P.N >= 6) || (e.P.Kind == policy.BoolExpr && e.P.Tree.Leaves() >= 5)
 }
 
+// noCross: entries dealt with one secret (mid) and one randomness (seeded) only. thorough: the huge ones; quick:
+// additionally the n=5 CNF and hierarchical policies (their full secret x randomness cross is in thorough).
+func noCross(e catalog.Entry) bool {
+	if huge(e) {
+		return true
+	}
+	return !engine.Thorough() && e.P.N >= 5 && (e.P.Kind == policy.CNF || e.P.Kind == policy.Hierarchical)
+}
+
 func dealSections(std []catalog.Entry, kc fctx[*k256.Scalar], ec fctx[*edwardsScalar], bc fctx[*blsScalar]) {
 	type filter = func(catalog.Entry, catalog.IDAssignment) bool
 	ord := func(a catalog.IDAssignment) bool { return a.Name == "ord" }
@@ -1083,9 +1092,13 @@ func dealSections(std []catalog.Entry, kc fctx[*k256.Scalar], ec fctx[*edwardsSc
 		}
 	}
 	B := func(q, t time.Duration) time.Duration { return engine.Budget(q, t) }
-	full := dealOpts{fullCross: true, linear: true, noCross: huge}
-	allSecrets := dealOpts{secrets: []int{0, 1, 2, 3}, linear: true, noCross: huge}
-	twoSecrets := dealOpts{secrets: []int{0, 3}, linear: true, noCross: huge}
+	// every section gets its own totals; the options are copied per section
+	var pending *dealStats
+	withStats := func(o dealOpts) dealOpts { pending = &dealStats{}; o.stats = pending; return o }
+	explore := func(body func(*engine.X), o engine.Opts) { st := pending; sec := engine.Explore(body, o); st.note(sec) }
+	full := dealOpts{fullCross: true, linear: true, noCross: noCross}
+	allSecrets := dealOpts{secrets: []int{0, 1, 2, 3}, linear: true, noCross: noCross}
+	twoSecrets := dealOpts{secrets: []int{0, 3}, linear: true, noCross: noCross}
 	midOnly := dealOpts{linear: true}
 	tassaExtra := dealOpts{secrets: []int{0, 3}, linear: true}
 	if engine.Thorough() {
@@ -1098,77 +1111,77 @@ func dealSections(std []catalog.Entry, kc fctx[*k256.Scalar], ec fctx[*edwardsSc
 
 	// KW over the whole catalogue
 	kwAll := buildCases(std, hugeOrdOnly)
-	engine.Explore(dealBody(kc, "kw", kwAll, func(x *engine.X, pc pcase) (*adapter[*kw.Share[*k256.Scalar]], bool) {
+	explore(dealBody(kc, "kw", kwAll, func(x *engine.X, pc pcase) (*adapter[*kw.Share[*k256.Scalar]], bool) {
 		return kwAdapter(x, kc, pc, plainKW[*k256.Scalar])
-	}, full), engine.Opts{Name: "deal/kw/k256", Budget: B(4*time.Minute, 40*time.Minute)})
+	}, withStats(full)), engine.Opts{Name: "deal/kw/k256", Budget: B(4*time.Minute, 40*time.Minute)})
 	kwOrd := buildCases(std, and(ordOnly, noHuge))
-	engine.Explore(dealBody(ec, "kw", kwOrd, func(x *engine.X, pc pcase) (*adapter[*kw.Share[*edwardsScalar]], bool) {
+	explore(dealBody(ec, "kw", kwOrd, func(x *engine.X, pc pcase) (*adapter[*kw.Share[*edwardsScalar]], bool) {
 		return kwAdapter(x, ec, pc, plainKW[*edwardsScalar])
-	}, extraField), engine.Opts{Name: "deal/kw/ed25519", Budget: B(3*time.Minute, 20*time.Minute)})
-	engine.Explore(dealBody(bc, "kw", kwOrd, func(x *engine.X, pc pcase) (*adapter[*kw.Share[*blsScalar]], bool) {
+	}, withStats(extraField)), engine.Opts{Name: "deal/kw/ed25519", Budget: B(3*time.Minute, 20*time.Minute)})
+	explore(dealBody(bc, "kw", kwOrd, func(x *engine.X, pc pcase) (*adapter[*kw.Share[*blsScalar]], bool) {
 		return kwAdapter(x, bc, pc, plainKW[*blsScalar])
-	}, extraField), engine.Opts{Name: "deal/kw/bls12381", Budget: B(3*time.Minute, 20*time.Minute)})
+	}, withStats(extraField)), engine.Opts{Name: "deal/kw/bls12381", Budget: B(3*time.Minute, 20*time.Minute)})
 
 	// Feldman / Pedersen (k256 group)
 	vssCases := buildCases(std, vssFilter)
-	engine.Explore(dealBody(kc, "feldman", vssCases, func(x *engine.X, pc pcase) (*adapter[*kw.Share[*k256.Scalar]], bool) {
+	explore(dealBody(kc, "feldman", vssCases, func(x *engine.X, pc pcase) (*adapter[*kw.Share[*k256.Scalar]], bool) {
 		return kwAdapter(x, kc, pc, feldmanK256)
-	}, twoSecrets), engine.Opts{Name: "deal/feldman/k256", Budget: B(4*time.Minute, 30*time.Minute)})
+	}, withStats(twoSecrets)), engine.Opts{Name: "deal/feldman/k256", Budget: B(4*time.Minute, 30*time.Minute)})
 	pedOpts := midOnly
 	if engine.Thorough() {
 		pedOpts = twoSecrets
 	}
-	engine.Explore(dealBody(kc, "pedersen", vssCases, func(x *engine.X, pc pcase) (*adapter[*pedersen.Share[*k256.Scalar]], bool) {
+	explore(dealBody(kc, "pedersen", vssCases, func(x *engine.X, pc pcase) (*adapter[*pedersen.Share[*k256.Scalar]], bool) {
 		return pedersenAdapter(x, kc, pc)
-	}, pedOpts), engine.Opts{Name: "deal/pedersen/k256", Budget: B(4*time.Minute, 30*time.Minute)})
+	}, withStats(pedOpts)), engine.Opts{Name: "deal/pedersen/k256", Budget: B(4*time.Minute, 30*time.Minute)})
 
 	// Shamir: threshold policies, all assignments, all fields, full cross
 	thr := buildCases(kinds(std, policy.Threshold), nil)
-	engine.Explore(dealBody(kc, "shamir", thr, func(x *engine.X, pc pcase) (*adapter[*shamir.Share[*k256.Scalar]], bool) {
+	explore(dealBody(kc, "shamir", thr, func(x *engine.X, pc pcase) (*adapter[*shamir.Share[*k256.Scalar]], bool) {
 		return shamirAdapter(x, kc, pc)
-	}, full), engine.Opts{Name: "deal/shamir/k256", Budget: B(2*time.Minute, 10*time.Minute)})
-	engine.Explore(dealBody(ec, "shamir", thr, func(x *engine.X, pc pcase) (*adapter[*shamir.Share[*edwardsScalar]], bool) {
+	}, withStats(full)), engine.Opts{Name: "deal/shamir/k256", Budget: B(2*time.Minute, 10*time.Minute)})
+	explore(dealBody(ec, "shamir", thr, func(x *engine.X, pc pcase) (*adapter[*shamir.Share[*edwardsScalar]], bool) {
 		return shamirAdapter(x, ec, pc)
-	}, full), engine.Opts{Name: "deal/shamir/ed25519", Budget: B(2*time.Minute, 10*time.Minute)})
-	engine.Explore(dealBody(bc, "shamir", thr, func(x *engine.X, pc pcase) (*adapter[*shamir.Share[*blsScalar]], bool) {
+	}, withStats(full)), engine.Opts{Name: "deal/shamir/ed25519", Budget: B(2*time.Minute, 10*time.Minute)})
+	explore(dealBody(bc, "shamir", thr, func(x *engine.X, pc pcase) (*adapter[*shamir.Share[*blsScalar]], bool) {
 		return shamirAdapter(x, bc, pc)
-	}, full), engine.Opts{Name: "deal/shamir/bls12381", Budget: B(2*time.Minute, 10*time.Minute)})
+	}, withStats(full)), engine.Opts{Name: "deal/shamir/bls12381", Budget: B(2*time.Minute, 10*time.Minute)})
 
 	// additive: unanimity
 	una := buildCases(kinds(std, policy.Unanimity), nil)
-	engine.Explore(dealBody(kc, "additive", una, func(x *engine.X, pc pcase) (*adapter[*additive.Share[*k256.Scalar]], bool) {
+	explore(dealBody(kc, "additive", una, func(x *engine.X, pc pcase) (*adapter[*additive.Share[*k256.Scalar]], bool) {
 		return additiveAdapter(x, kc, pc)
-	}, full), engine.Opts{Name: "deal/additive/k256", Budget: B(time.Minute, 5*time.Minute)})
-	engine.Explore(dealBody(ec, "additive", una, func(x *engine.X, pc pcase) (*adapter[*additive.Share[*edwardsScalar]], bool) {
+	}, withStats(full)), engine.Opts{Name: "deal/additive/k256", Budget: B(time.Minute, 5*time.Minute)})
+	explore(dealBody(ec, "additive", una, func(x *engine.X, pc pcase) (*adapter[*additive.Share[*edwardsScalar]], bool) {
 		return additiveAdapter(x, ec, pc)
-	}, full), engine.Opts{Name: "deal/additive/ed25519", Budget: B(time.Minute, 5*time.Minute)})
-	engine.Explore(dealBody(bc, "additive", una, func(x *engine.X, pc pcase) (*adapter[*additive.Share[*blsScalar]], bool) {
+	}, withStats(full)), engine.Opts{Name: "deal/additive/ed25519", Budget: B(time.Minute, 5*time.Minute)})
+	explore(dealBody(bc, "additive", una, func(x *engine.X, pc pcase) (*adapter[*additive.Share[*blsScalar]], bool) {
 		return additiveAdapter(x, bc, pc)
-	}, full), engine.Opts{Name: "deal/additive/bls12381", Budget: B(time.Minute, 5*time.Minute)})
+	}, withStats(full)), engine.Opts{Name: "deal/additive/bls12381", Budget: B(time.Minute, 5*time.Minute)})
 
 	// Tassa: hierarchical (the single-level threshold-1 layout is outside: Tassa deals it but its Reconstruct insists
 	// on two shares while every single party is qualified)
 	hier := buildCases(kinds(std, policy.Hierarchical), accepted)
-	engine.Explore(dealBody(kc, "tassa", hier, func(x *engine.X, pc pcase) (*adapter[*tassa.Share[*k256.Scalar]], bool) {
+	explore(dealBody(kc, "tassa", hier, func(x *engine.X, pc pcase) (*adapter[*tassa.Share[*k256.Scalar]], bool) {
 		return tassaAdapter(x, kc, pc)
-	}, full), engine.Opts{Name: "deal/tassa/k256", Budget: B(2*time.Minute, 15*time.Minute)})
-	engine.Explore(dealBody(ec, "tassa", hier, func(x *engine.X, pc pcase) (*adapter[*tassa.Share[*edwardsScalar]], bool) {
+	}, withStats(full)), engine.Opts{Name: "deal/tassa/k256", Budget: B(2*time.Minute, 15*time.Minute)})
+	explore(dealBody(ec, "tassa", hier, func(x *engine.X, pc pcase) (*adapter[*tassa.Share[*edwardsScalar]], bool) {
 		return tassaAdapter(x, ec, pc)
-	}, tassaExtra), engine.Opts{Name: "deal/tassa/ed25519", Budget: B(2*time.Minute, 15*time.Minute)})
-	engine.Explore(dealBody(bc, "tassa", hier, func(x *engine.X, pc pcase) (*adapter[*tassa.Share[*blsScalar]], bool) {
+	}, withStats(tassaExtra)), engine.Opts{Name: "deal/tassa/ed25519", Budget: B(2*time.Minute, 15*time.Minute)})
+	explore(dealBody(bc, "tassa", hier, func(x *engine.X, pc pcase) (*adapter[*tassa.Share[*blsScalar]], bool) {
 		return tassaAdapter(x, bc, pc)
-	}, tassaExtra), engine.Opts{Name: "deal/tassa/bls12381", Budget: B(2*time.Minute, 15*time.Minute)})
+	}, withStats(tassaExtra)), engine.Opts{Name: "deal/tassa/bls12381", Budget: B(2*time.Minute, 15*time.Minute)})
 
 	// ISN: every family through its maximal unqualified sets, identifiers <= 64 (bit-set domain)
 	isnAll := buildCases(std, and(max64, hugeOrdOnly))
-	engine.Explore(dealBody(kc, "isn", isnAll, func(x *engine.X, pc pcase) (*adapter[*isn.Share[*k256.Scalar]], bool) {
+	explore(dealBody(kc, "isn", isnAll, func(x *engine.X, pc pcase) (*adapter[*isn.Share[*k256.Scalar]], bool) {
 		return isnAdapter(x, kc, pc)
-	}, full), engine.Opts{Name: "deal/isn/k256", Budget: B(3*time.Minute, 30*time.Minute)})
+	}, withStats(full)), engine.Opts{Name: "deal/isn/k256", Budget: B(3*time.Minute, 30*time.Minute)})
 	isnOrd := buildCases(std, and(ordOnly, noHuge))
-	engine.Explore(dealBody(ec, "isn", isnOrd, func(x *engine.X, pc pcase) (*adapter[*isn.Share[*edwardsScalar]], bool) {
+	explore(dealBody(ec, "isn", isnOrd, func(x *engine.X, pc pcase) (*adapter[*isn.Share[*edwardsScalar]], bool) {
 		return isnAdapter(x, ec, pc)
-	}, twoSecrets), engine.Opts{Name: "deal/isn/ed25519", Budget: B(2*time.Minute, 15*time.Minute)})
-	engine.Explore(dealBody(bc, "isn", isnOrd, func(x *engine.X, pc pcase) (*adapter[*isn.Share[*blsScalar]], bool) {
+	}, withStats(twoSecrets)), engine.Opts{Name: "deal/isn/ed25519", Budget: B(2*time.Minute, 15*time.Minute)})
+	explore(dealBody(bc, "isn", isnOrd, func(x *engine.X, pc pcase) (*adapter[*isn.Share[*blsScalar]], bool) {
 		return isnAdapter(x, bc, pc)
-	}, twoSecrets), engine.Opts{Name: "deal/isn/bls12381", Budget: B(2*time.Minute, 15*time.Minute)})
+	}, withStats(twoSecrets)), engine.Opts{Name: "deal/isn/bls12381", Budget: B(2*time.Minute, 15*time.Minute)})
 }
